@@ -28,6 +28,7 @@ import glom
 
 import vlib
 import c06_build as B
+import c06_zoo
 
 PROP = 'C06'
 TRACE_MAXCACHE = 2
@@ -128,6 +129,15 @@ def _perform(actions, maxcache):
             out, text = B.run_call(ctx, bc)
             diff = B.snap_diff(before, B.snap_call(bc))
             log.add({'e': 'call', 'call': call, 'out': out})
+            # the caller owns what it was handed: scribble over every returned container that is neither
+            # the target's / scope's nor part of the public value of the spec (must not show in later calls)
+            if ctx.local.last_result is not None:
+                owned = set()
+                c06_zoo._reachable(bc.target, owned)
+                c06_zoo._reachable(bc.scope, owned)
+                c06_zoo._reachable((bc.spec, bc.specobj), owned, public_only=True)
+                c06_zoo.mutate_result(ctx.local.last_result, owned)
+                ctx.local.last_result = None
             calls.append(dict(out=out, text=text, diff=diff, star=star, regs=list(regs), cache=B.cache_state() if plain else None,
                               nwarn=sum(1 for e in log.events if e['e'] == 'warn')))
     return calls, log.events
@@ -562,9 +572,9 @@ def _main(check, tier, seed):
     configs = {'quick': [dict(PoolFrom=1, PoolSize=10, MaxHist=3, MaxToggles=1, MaxRegs=1),
                          dict(PoolFrom=11, PoolSize=4, MaxHist=3, MaxToggles=1, MaxRegs=1),
                          dict(PoolFrom=15, PoolSize=6, MaxHist=3, MaxToggles=1, MaxRegs=1),
-                         dict(PoolFrom=21, PoolSize=5, MaxHist=3, MaxToggles=1, MaxRegs=1)],
+                         dict(PoolFrom=21, PoolSize=6, MaxHist=3, MaxToggles=1, MaxRegs=1)],
                'thorough': [dict(PoolFrom=1, PoolSize=14, MaxHist=3, MaxToggles=2, MaxRegs=1),
-                            dict(PoolFrom=11, PoolSize=21, MaxHist=3, MaxToggles=1, MaxRegs=1),
+                            dict(PoolFrom=11, PoolSize=22, MaxHist=3, MaxToggles=1, MaxRegs=1),
                             dict(PoolFrom=1, PoolSize=9, MaxHist=4, MaxToggles=1, MaxRegs=1)]}[tier]
     rows, drift, results = [], [], []
     for consts in configs:
@@ -613,7 +623,6 @@ def _main(check, tier, seed):
     B.require_coverage(cov)
     check.extra['mechanism_coverage'] = cov
     # the spec-object zoo: every stateful constructor as ONE object, reused, results scribbled over
-    import c06_zoo
     c06_zoo.run_c06(check, tier, seed, match_finding)
     check.extra['mechanism_unobservable'] = in_child(B.observability)
     # subprocess cross-check of the fork shortcut
@@ -630,11 +639,11 @@ def _main(check, tier, seed):
         # spec mutants: the law must be violated
         mres = {}
         for m, law in MUTANTS.items():
-            r = vlib.run_tlc('MC_C06', cfg='MC_C06_mutant', constants=dict(PoolFrom=11, PoolSize=21, MaxHist=3, MaxToggles=2, MaxRegs=2, Mutant='"%s"' % m))
+            r = vlib.run_tlc('MC_C06', cfg='MC_C06_mutant', constants=dict(PoolFrom=11, PoolSize=22, MaxHist=3, MaxToggles=2, MaxRegs=2, Mutant='"%s"' % m))
             mres[m] = r['violated']
             if r['violated'] != law:
                 raise vlib.MachineryError('spec mutant %s: expected %s violated, TLC says %s' % (m, law, r['violated']))
-        r = vlib.run_tlc('MC_C06', cfg='MC_C06_mutant_frame', constants=dict(PoolFrom=11, PoolSize=21, MaxHist=3, MaxToggles=2, MaxRegs=2, Mutant='"acconspec"'))
+        r = vlib.run_tlc('MC_C06', cfg='MC_C06_mutant_frame', constants=dict(PoolFrom=11, PoolSize=22, MaxHist=3, MaxToggles=2, MaxRegs=2, Mutant='"acconspec"'))
         mres['acconspec/frame'] = r['violated']
         if r['violated'] != 'FrameCondition':
             raise vlib.MachineryError('spec mutant acconspec: FrameCondition not violated (%s)' % r['violated'])
